@@ -48,6 +48,16 @@ pub proof fn lemma_mask_remove<A>(s: Seq<A>, keep: Seq<bool>, k: int)
 
 pub assume_specification<T> [<T as core::convert::From<T>>::from] (t: T) -> (r: T) ensures r == t;
 
+// ---- core::num::NonZeroU16 ------------------------------------------------------------
+pub struct NonZeroU16 { pub v: u16 }
+impl Clone for NonZeroU16 { #[verifier::external_body] fn clone(&self) -> (r: Self) ensures r == *self { unimplemented!() } }
+impl Copy for NonZeroU16 {}
+impl NonZeroU16 {
+    #[verifier::external_body] pub fn new(v: u16) -> (r: Option<NonZeroU16>)
+        ensures r == (if v != 0 { Some(NonZeroU16 { v }) } else { None::<NonZeroU16> }) { unimplemented!() }
+    #[verifier::external_body] pub fn get(self) -> (r: u16) ensures r == self.v { unimplemented!() }
+}
+
 // ---- heapless::Vec<T, N> -------------------------------------------------------------
 // Assumed contract on a dependency: a sequence of at most N elements.  `at`/`at_mut`
 // stand for indexing through the iterators that rule X16 turns into index loops;
@@ -404,6 +414,65 @@ fn from(err: ProtocolError) -> (r: Self)
 impl<P, T> vstd::std_specs::convert::FromSpecImpl<ProtocolError> for PubError<P, T> {
     open spec fn obeys_from_spec() -> bool { true }
     open spec fn from_spec(err: ProtocolError) -> Self { PubError::Session(err_of_protocol(err)) }
+}
+
+} // verus!
+
+// ======================================================================================
+// 06_time: embassy_time::{Instant, Duration} as tick counters over mathematical naturals
+// (machine arithmetic treated as mathematical: u64 ticks at 1 MHz wrap after 584 000 years).
+// ======================================================================================
+verus! {
+
+pub const TICK_HZ: u64 = 1_000_000;
+
+pub struct Instant { pub t: Ghost<nat> }
+pub struct Duration { pub t: Ghost<nat> }
+impl Clone for Instant { #[verifier::external_body] fn clone(&self) -> (r: Self) ensures r == *self { unimplemented!() } }
+impl Copy for Instant {}
+impl Clone for Duration { #[verifier::external_body] fn clone(&self) -> (r: Self) ensures r == *self { unimplemented!() } }
+impl Copy for Duration {}
+
+impl Instant {
+    pub open spec fn ticks(self) -> nat { self.t@ }
+    /// the clock: any value (monotonicity is not needed by the clauses proved here)
+    #[verifier::external_body] pub fn now() -> Instant { unimplemented!() }
+    #[verifier::external_body] pub fn min(self, other: Instant) -> (r: Instant)
+        ensures r == (if other.ticks() < self.ticks() { other } else { self }) { unimplemented!() }
+}
+impl Duration {
+    pub open spec fn ticks(self) -> nat { self.t@ }
+    #[verifier::external_body] pub fn from_millis(ms: u64) -> (r: Duration) ensures r.ticks() == ms * 1000 { unimplemented!() }
+    #[verifier::external_body] pub fn from_secs(s: u64) -> (r: Duration) ensures r.ticks() == s * 1_000_000 { unimplemented!() }
+    #[verifier::external_body] pub fn as_millis(&self) -> (r: u64) ensures r == self.ticks() / 1000 { unimplemented!() }
+    #[verifier::external_body] pub fn as_secs(&self) -> (r: u64) ensures r == self.ticks() / 1_000_000 { unimplemented!() }
+}
+pub open spec fn instant_plus(a: Instant, d: Duration) -> Instant { Instant { t: Ghost((a.ticks() + d.ticks()) as nat) } }
+impl vstd::std_specs::ops::AddSpecImpl<Duration> for Instant {
+    open spec fn obeys_add_spec() -> bool { true }
+    open spec fn add_req(self, rhs: Duration) -> bool { true }
+    open spec fn add_spec(self, rhs: Duration) -> Instant { instant_plus(self, rhs) }
+}
+impl core::ops::Add<Duration> for Instant {
+    type Output = Instant;
+    #[verifier::external_body]
+    fn add(self, rhs: Duration) -> (r: Instant) { unimplemented!() }
+}
+impl core::cmp::PartialEq for Instant {
+    #[verifier::external_body]
+    fn eq(&self, other: &Instant) -> (r: bool) ensures r == (self.ticks() == other.ticks()) { unimplemented!() }
+}
+impl vstd::std_specs::cmp::PartialOrdSpecImpl for Instant {
+    open spec fn obeys_partial_cmp_spec() -> bool { true }
+    open spec fn partial_cmp_spec(&self, other: &Instant) -> Option<core::cmp::Ordering> {
+        if self.ticks() < other.ticks() { Some(core::cmp::Ordering::Less) }
+        else if self.ticks() == other.ticks() { Some(core::cmp::Ordering::Equal) }
+        else { Some(core::cmp::Ordering::Greater) }
+    }
+}
+impl core::cmp::PartialOrd for Instant {
+    #[verifier::external_body]
+    fn partial_cmp(&self, other: &Instant) -> (r: Option<core::cmp::Ordering>) { unimplemented!() }
 }
 
 } // verus!
@@ -1862,6 +1931,315 @@ fn encode_publish<P: ToPayload, E>(
         let (offset, packet) =
             (match MqttSerializer::encode_publish_with_offset(&mut self.buf[start..], header, payload) { Ok(__v) => __v, Err(__e) => return Err(From::from(__e)) });
         Ok((start + offset, packet.len()))
+    }
+}
+
+} // verus!
+
+// ======================================================================================
+// 20_state: src/mqtt_client/session/state.rs — RuntimeState, SessionData
+// ======================================================================================
+verus! {
+
+pub const ROUND_TRIP_TIMEOUT_MS: u64 = 5_000;
+pub const MAX_INBOUND_QOS2: usize = 8;
+pub struct RuntimeState {
+    pub session_resumed: bool,
+    pub keepalive_interval: Duration,
+    pub send_quota: u16,
+    pub max_send_quota: u16,
+    pub maximum_packet_size: Option<u32>,
+    pub max_qos: Option<QoS>,
+    pub next_ping: Option<Instant>,
+    pub ping_timeout: Option<Instant>,
+}
+
+/// Appendix A.4: the interval after which a PINGREQ is due, in ticks (None iff keep-alive 0)
+pub open spec fn send_interval_ms(keepalive_ms: nat) -> nat {
+    let lead = if 5000 <= keepalive_ms / 2 { 5000 } else { keepalive_ms / 2 };
+    (keepalive_ms - lead) as nat
+}
+
+/// Maximum Packet Size check shared by every sender: `len > max`
+pub open spec fn too_large(mps: Option<u32>, len: usize) -> bool {
+    match mps { Some(max) => len > max as usize, None => false }
+}
+
+impl RuntimeState {
+fn reset_transport(&mut self)
+    ensures
+        final(self).session_resumed == false && final(self).next_ping is None && final(self).ping_timeout is None,
+        final(self).keepalive_interval == old(self).keepalive_interval && final(self).send_quota == old(self).send_quota
+            && final(self).max_send_quota == old(self).max_send_quota && final(self).maximum_packet_size == old(self).maximum_packet_size
+            && final(self).max_qos == old(self).max_qos,
+{
+        self.session_resumed = false;
+        self.next_ping = None;
+        self.ping_timeout = None;
+    }
+
+fn keepalive_send_interval(&self) -> (r: Option<Duration>)
+    requires
+        self.keepalive_interval.ticks() / 1000 <= u64::MAX,
+    ensures
+        self.keepalive_interval.ticks() / 1000 == 0 <==> r is None,
+        r matches Some(d) ==> d.ticks() == send_interval_ms(self.keepalive_interval.ticks() / 1000) * 1000,
+        r matches Some(d) ==> 0 < d.ticks() <= self.keepalive_interval.ticks(),
+{
+        let keepalive_ms = self.keepalive_interval.as_millis();
+        if keepalive_ms == 0 {
+            return None;
+        }
+
+        let lead_ms = ROUND_TRIP_TIMEOUT_MS.min(keepalive_ms / 2);
+        Some(Duration::from_millis(keepalive_ms - lead_ms))
+    }
+
+fn note_outbound_activity(&mut self, now: Instant)
+    requires
+        old(self).keepalive_interval.ticks() / 1000 <= u64::MAX,
+    ensures
+        old(self).keepalive_interval.ticks() / 1000 == 0 ==> final(self).next_ping is None,
+        old(self).keepalive_interval.ticks() / 1000 != 0 ==> (final(self).next_ping matches Some(t)
+            && t.ticks() == now.ticks() + send_interval_ms(old(self).keepalive_interval.ticks() / 1000) * 1000),
+        final(self).ping_timeout == old(self).ping_timeout && final(self).keepalive_interval == old(self).keepalive_interval
+            && final(self).send_quota == old(self).send_quota && final(self).max_send_quota == old(self).max_send_quota
+            && final(self).maximum_packet_size == old(self).maximum_packet_size && final(self).max_qos == old(self).max_qos
+            && final(self).session_resumed == old(self).session_resumed,
+{
+        self.next_ping = (match self
+            .keepalive_send_interval() { Some(interval) => Some(now + interval), None => None });
+    }
+
+fn require_packet_size<E>(&self, len: usize) -> (r: Result<(), Error<E>>)
+    ensures
+        r == (if too_large(self.maximum_packet_size, len)
+              { Err::<(), Error<E>>(Error::Resource(ResourceError::PacketTooLarge)) } else { Ok::<(), Error<E>>(()) }),
+{
+        if (match self
+            .maximum_packet_size { Some(max) => len > max as usize, None => false })
+        {
+            return Err(Error::Resource(ResourceError::PacketTooLarge));
+        }
+        Ok(())
+    }
+
+fn next_deadline(&self) -> (r: Option<Instant>)
+    ensures
+        r == (match (self.next_ping, self.ping_timeout) {
+            (Some(a), Some(b)) => Some(if b.ticks() < a.ticks() { b } else { a }),
+            (Some(a), None) => Some(a),
+            (None, Some(b)) => Some(b),
+            (None, None) => None::<Instant>,
+        }),
+{
+        match (self.next_ping, self.ping_timeout) {
+            (Some(next_ping), Some(ping_timeout)) => Some(next_ping.min(ping_timeout)),
+            (Some(next_ping), None) => Some(next_ping),
+            (None, Some(ping_timeout)) => Some(ping_timeout),
+            (None, None) => None,
+        }
+    }
+}
+
+
+pub struct SessionData<'a> {
+    pub packet_id: NonZeroU16,
+    pub generation: u32,
+    pub outbound: Outbound<'a>,
+    pub pending_server_packet_ids: Vec<u16, MAX_INBOUND_QOS2>,
+    pub session_present: bool,
+}
+
+/// the id handed out next: wraps from 65535 to 1, never 0
+pub open spec fn next_id(id: u16) -> u16 { if id == 65535 { 1 } else { (id + 1) as u16 } }
+
+pub open spec fn sd_inv(d: SessionData) -> bool {
+    wf(d.outbound) && d.packet_id.v != 0 && d.pending_server_packet_ids@.len() <= MAX_INBOUND_QOS2
+}
+
+/// the k-th identifier probed when starting from `start` (1..=65535, cyclic)
+pub open spec fn cyc(start: u16, k: nat) -> u16 { (((start - 1 + k) % 65535) + 1) as u16 }
+pub open spec fn in_use(o: Outbound, id: u16) -> bool { has_ret(o.retained@, id) || has_rel(o.pending_release@, id) }
+pub proof fn lemma_cyc_zero(start: u16) requires start != 0 ensures cyc(start, 0) == start {}
+pub proof fn lemma_cyc_step(start: u16, k: nat)
+    requires start != 0
+    ensures cyc(start, k + 1) == next_id(cyc(start, k)), cyc(start, k) != 0
+{
+    let a = (start - 1 + k) as int;
+    assert((a + 1) % 65535 == (if a % 65535 == 65534 { 0 } else { a % 65535 + 1 })) by (nonlinear_arith) requires a >= 0;
+}
+/// identifiers of all in-flight entries, as one sequence (retained then release)
+pub open spec fn ids_of(o: Outbound) -> Seq<u16> {
+    Seq::new(o.retained@.len(), |i: int| o.retained@[i].packet_id) + Seq::new(o.pending_release@.len(), |i: int| o.pending_release@[i].packet_id)
+}
+/// pigeonhole on sequences: distinct values that all occur in `ids` are at most |ids| many
+pub proof fn lemma_pigeon(xs: Seq<u16>, ids: Seq<u16>)
+    requires xs.no_duplicates(), forall|i: int| 0 <= i < xs.len() ==> ids.contains(#[trigger] xs[i]),
+    ensures xs.len() <= ids.len()
+    decreases ids.len()
+{
+    if xs.len() == 0 {
+    } else if ids.len() == 0 {
+        assert(ids.contains(xs[0]));
+    } else {
+        let y = ids.last();
+        let ids1 = ids.drop_last();
+        if xs.contains(y) {
+            let p = choose|p: int| 0 <= p < xs.len() && xs[p] == y;
+            let xs1 = xs.remove(p);
+            assert forall|i: int| 0 <= i < xs1.len() implies ids1.contains(#[trigger] xs1[i]) by {
+                let ii = if i < p { i } else { i + 1 };
+                assert(xs1[i] == xs[ii]);
+                assert(xs[ii] != y);
+                assert(ids.contains(xs[ii]));
+                let q = choose|q: int| 0 <= q < ids.len() && ids[q] == xs[ii];
+                assert(ids1[q] == xs[ii]);
+            }
+            assert forall|i: int, j: int| 0 <= i < xs1.len() && 0 <= j < xs1.len() && i != j implies xs1[i] != xs1[j] by {
+                let ii = if i < p { i } else { i + 1 };
+                let jj = if j < p { j } else { j + 1 };
+                assert(xs1[i] == xs[ii] && xs1[j] == xs[jj]);
+            }
+            lemma_pigeon(xs1, ids1);
+        } else {
+            assert forall|i: int| 0 <= i < xs.len() implies ids1.contains(#[trigger] xs[i]) by {
+                assert(ids.contains(xs[i]));
+                let q = choose|q: int| 0 <= q < ids.len() && ids[q] == xs[i];
+                assert(xs.contains(xs[i]));
+                assert(ids1[q] == xs[i]);
+            }
+            lemma_pigeon(xs, ids1);
+        }
+    }
+}
+/// k consecutive probes that all hit an in-flight id => k <= number of in-flight entries
+pub proof fn lemma_probe_bound(o: Outbound, start: u16, k: nat)
+    requires start != 0, k <= 17, wf(o), forall|j: nat| j < k ==> in_use(o, #[trigger] cyc(start, j)),
+    ensures k <= 16
+{
+    let ids = ids_of(o);
+    let xs = Seq::new(k, |j: int| cyc(start, j as nat));
+    assert forall|i: int| 0 <= i < xs.len() implies ids.contains(#[trigger] xs[i]) by {
+        let x = xs[i];
+        assert(in_use(o, cyc(start, i as nat)));
+        if has_ret(o.retained@, x) {
+            let q = choose|q: int| 0 <= q < o.retained@.len() && (#[trigger] o.retained@[q]).packet_id == x;
+            assert(ids[q] == x);
+        } else {
+            let q = choose|q: int| 0 <= q < o.pending_release@.len() && (#[trigger] o.pending_release@[q]).packet_id == x;
+            assert(ids[o.retained@.len() + q] == x);
+        }
+    }
+    assert forall|i: int, j: int| 0 <= i < xs.len() && 0 <= j < xs.len() && i != j implies xs[i] != xs[j] by {
+        let a = (start - 1 + i) as int; let b = (start - 1 + j) as int;
+        if i < j {
+            assert(a % 65535 != b % 65535) by (nonlinear_arith) requires 0 <= a < b < a + 65535;
+        } else {
+            assert(a % 65535 != b % 65535) by (nonlinear_arith) requires 0 <= b < a < b + 65535;
+        }
+    }
+    lemma_pigeon(xs, ids);
+}
+
+impl<'a> SessionData<'a> {
+fn new(outbound: &'a mut [u8]) -> (r: Self)
+    ensures
+        r.packet_id.v == 1 && r.generation == 0 && !r.session_present && r.pending_server_packet_ids@.len() == 0
+            && r.outbound.retained@.len() == 0 && r.outbound.pending_control@.len() == 0 && r.outbound.pending_release@.len() == 0
+            && r.outbound.used == 0 && bv(r.outbound) == old(outbound)@ && sd_inv(r),
+{
+        Self {
+            packet_id: NonZeroU16::new(1).unwrap(),
+            generation: 0,
+            outbound: Outbound::new(outbound),
+            pending_server_packet_ids: Vec::new(),
+            session_present: false,
+        }
+    }
+
+fn mark_session_present(&mut self)
+    ensures
+        final(self).session_present && final(self).packet_id == old(self).packet_id && final(self).generation == old(self).generation
+            && final(self).pending_server_packet_ids@ == old(self).pending_server_packet_ids@
+            && same_outbound(final(self).outbound, old(self).outbound),
+{
+        self.session_present = true;
+    }
+
+fn reset(&mut self)
+    requires
+        sd_inv(*old(self)),
+    ensures
+        !final(self).session_present && final(self).generation == (if old(self).generation == u32::MAX { 0 } else { (old(self).generation + 1) as u32 })
+            && final(self).packet_id.v == 1,
+        final(self).pending_server_packet_ids@.len() == 0
+            && final(self).outbound.retained@.len() == 0 && final(self).outbound.pending_control@.len() == 0
+            && final(self).outbound.pending_release@.len() == 0 && final(self).outbound.used == 0
+            && bv(final(self).outbound) == bv(old(self).outbound),
+        sd_inv(*final(self)),
+{
+        self.session_present = false;
+        self.generation = self.generation.wrapping_add(1);
+        self.packet_id = NonZeroU16::new(1).unwrap();
+        self.outbound.clear();
+        self.pending_server_packet_ids.clear();
+    }
+
+fn generation(&self) -> (r: u32)
+    ensures
+        r == self.generation,
+{
+        self.generation
+    }
+
+fn next_packet_id(&mut self) -> (r: u16)
+    requires
+        sd_inv(*old(self)),
+    ensures
+        r != 0,
+        final(self).packet_id.v == next_id(r) && final(self).packet_id.v != 0,
+        !has_ret(old(self).outbound.retained@, r) && !has_rel(old(self).outbound.pending_release@, r),
+        same_outbound(final(self).outbound, old(self).outbound) && final(self).generation == old(self).generation
+            && final(self).session_present == old(self).session_present
+            && final(self).pending_server_packet_ids@ == old(self).pending_server_packet_ids@,
+{
+        let ghost start = self.packet_id.v;
+        let ghost mut k: nat = 0;
+        proof { lemma_cyc_zero(start); }
+
+
+
+        loop 
+            invariant
+                self.packet_id.v != 0,
+                self.packet_id.v == cyc(start, k),
+                start != 0, start == old(self).packet_id.v,
+                k <= 16,
+                forall|j: nat| j < k ==> in_use(old(self).outbound, #[trigger] cyc(start, j)),
+                same_outbound(self.outbound, old(self).outbound), self.generation == old(self).generation,
+                self.session_present == old(self).session_present,
+                self.pending_server_packet_ids@ == old(self).pending_server_packet_ids@,
+                wf(old(self).outbound),
+            decreases 17 - k
+{
+            let packet_id = self.packet_id.get();
+            self.packet_id =
+                NonZeroU16::new(packet_id.wrapping_add(1)).unwrap_or(NonZeroU16::new(1).unwrap());
+            if !self.outbound.has_retained(packet_id)
+                && !self.outbound.has_pending_release(packet_id)
+            {
+                return packet_id;
+            }
+        
+            proof {
+                lemma_cyc_step(start, k);
+                assert(in_use(old(self).outbound, cyc(start, k)));
+                lemma_probe_bound(old(self).outbound, start, k + 1);
+                k = k + 1;
+            }
+
+}
     }
 }
 
